@@ -12,12 +12,13 @@ CODES = {1: "decided twice", 2: "decided the zero value", 3: "qcommit without a 
 def main():
     R = vp.Result("C03")
     R.assumptions = [
-        "STAGE 1: decide_nonzero, decide_leader_proposed and validity_no_byz are network-level statements (DESIGN.md C03) and are NOT yet proved; single-process a quorum of forged COMMIT(r, 0) makes qbft.Run decide 0, so 'never zero' is monitored on honest cluster executions only",
+        "decide_nonzero, decide_leader_proposed and validity_no_byz are proved at network level (Qbft/Net.v, <= f Byzantine) for executions in which Compare never fails (default configuration); single-process a quorum of forged COMMIT(r, 0) makes qbft.Run decide 0, so 'never zero' is monitored on honest cluster executions only",
+        "signatures and value hashes are symbolic: a message part with an honest source exists only if that member broadcast it",
         "after its Decide the Go code can still release one cached PRE-PREPARE when its own input arrives late (ppjCache is kept when the decision does not change the round); the theorem C03_after_decision states exactly what can follow a decision",
         "the model Qbft/Model.v is tied to core/qbft/qbft.go by sampled trace inclusion (synctest, one event at a time)",
         "Go map-iteration nondeterminism is absorbed by admissibility checks that over-approximate the orders Go can produce",
     ]
-    R.proofs()
+    R.proofs(extra_targets=["Qbft/Corr.v"])
     n = 8000 if R.thorough else 500
     res = qe.run(R, n)
     qe.coverage(R, res)
